@@ -378,18 +378,31 @@ def gen_c13(tier, seed):
     cases = []
     # (1) masks: every group index x {0, all ones, each single bit} x every length 0..130
     ops = []
+    # base addresses from every structural class the code itself distinguishes (the
+    # irc_inaddr_is_ipv4 / is_valid macros): generic IPv6, IPv4-mapped, IPv4-compatible, zero, ones
+    def bases():
+        x, y = rng.randint(1, 0xffff), rng.randint(0, 0xffff)
+        return [
+            [rng.randint(0, 0xffff) for _ in range(8)],
+            [0, 0, 0, 0, 0, 0xffff, x, y],
+            [0, 0, 0, 0, 0, 0, x, y],
+            [0] * 8,
+            [0xffff] * 8,
+        ]
     for gi in range(8):
         for diff in [0, 0xffff] + [1 << b for b in range(16)]:
-            a = [rng.randint(0, 0xffff) for _ in range(8)]
-            m = list(a)
-            m[gi] ^= diff
-            for n in range(131):
-                ops.append(_mask(a, m, n))
+            for a in bases():
+                m = list(a)
+                m[gi] ^= diff
+                for n in range(131):
+                    ops.append(_mask(a, m, n))
     cases += _batch("c13/mask-exhaustive", ops, {"gen": "mask-exhaustive", "exhaustive": True}, per=3000)
     # (2) random triples, lengths concentrated around the first differing bit
     ops = []
     for k in range(20000 if tier == "quick" else 1000000):
         a = [rng.randint(0, 0xffff) for _ in range(8)]
+        if k % 4 == 1:
+            a = [0, 0, 0, 0, 0, rng.choice((0, 0xffff)), rng.randint(1, 0xffff), rng.randint(0, 0xffff)]
         m = list(a)
         r = rng.random()
         if r < 0.6:
